@@ -235,8 +235,29 @@ func genModel(t *rapid.T) kit.OrdMap {
 		} else {
 			k = kit.GenKey().Draw(t, "k")
 		}
+		var v []byte
+		switch {
+		case len(pool) > 0 && rapid.IntRange(0, 3).Draw(t, "twin") == 0:
+			// twin of an existing key: same tail and same value below a different first
+			// byte, so that identical node encodings (leaves, hashed value pre-images)
+			// occur at different positions of the trie
+			base := pool[rapid.IntRange(0, len(pool)-1).Draw(t, "twinbase")]
+			if len(base) > 0 {
+				k = append([]byte{}, base...)
+				k[0] = rapid.SampledFrom(c05Alphabet).Draw(t, "twinbyte")
+				v = append([]byte{}, model[string(base)]...)
+				kit.Label("twin-key-same-tail-same-value")
+			}
+		case len(pool) > 0 && rapid.IntRange(0, 3).Draw(t, "sharedv") == 0:
+			base := pool[rapid.IntRange(0, len(pool)-1).Draw(t, "sharedbase")]
+			v = append([]byte{}, model[string(base)]...)
+			kit.Label("value-shared-with-another-key")
+		}
+		if v == nil {
+			v = kit.GenValue().Draw(t, "v")
+		}
 		pool = append(pool, k)
-		model[string(k)] = kit.GenValue().Draw(t, "v")
+		model[string(k)] = v
 	}
 	return model
 }
